@@ -84,14 +84,32 @@ def rule_route(ctx):
             site, "strategy dispatch: %s" % disp)
 
 
-def portfolio_consts(body, t):
-    """Constants of the portfolios referenced (through the local `portfolio`) inside a summary term."""
-    out = []
+def expand_locals(body, t, what):
+    """`what`(term) collected over t and, transitively, over the initialisers of the locals it mentions (portfolios, local closures)."""
+    out = list(what(t))
     lets = hq.let_by_id(body)
-    for name, lid in flow.locals_in(t):
-        if lid in lets and "init" in lets[lid]:
-            out.extend(flow.consts_in(flow.summ(lets[lid]["init"])))
-    return out + flow.consts_in(t)
+    seen = set()
+    todo = list(flow.locals_in(t))
+    while todo:
+        name, lid = todo.pop()
+        if lid in seen or lid not in lets or "init" not in lets[lid]:
+            continue
+        seen.add(lid)
+        st = flow.summ(lets[lid]["init"])
+        out.extend(what(st))
+        todo.extend(flow.locals_in(st))
+        # a closure's body is not part of the summary of the closure expression: descend into it
+        init = strip(lets[lid]["init"])
+        if init.get("k") == "Closure":
+            sb = flow.summ(init["body"])
+            out.extend(what(sb))
+            todo.extend(flow.locals_in(sb))
+    return out
+
+
+def portfolio_consts(body, t):
+    """Constants of the portfolios referenced (through locals such as `portfolio`, or through a local closure) inside a summary term."""
+    return expand_locals(body, t, flow.consts_in)
 
 
 def rule_pipe(ctx):
@@ -117,7 +135,7 @@ def rule_pipe(ctx):
         steps = pipes[side]
         ops = []
         for conds, s, consts in steps:
-            cs = [c for c in flow.callees_in(s) if c not in ("Iterator::map",)]
+            cs = [c for c in dict.fromkeys(expand_locals(b["body"], s, flow.callees_in)) if c not in ("Iterator::map", "Iterator::collect", "IntoIterator::into_iter", "Compose::compose", "slice::concat", "<[V]>::concat", "Concat::concat")]
             ops.append((tuple(k for k, pol in conds if pol), cs, consts))
         gi = [i for i, (c, cs, k) in enumerate(ops) if "Gamma::gamma" in cs]
         ctx.add("FLOW-PIPE", "%s:gamma-once" % side, len(gi) == 1 and ops[gi[0]][0] == (), site, "gamma is applied exactly once, unconditionally: steps %s" % gi)
@@ -135,8 +153,8 @@ def rule_pipe(ctx):
                 "portfolios applied before gamma: %s (only HT-sound ones allowed)" % pre_consts, construct=pre_consts)
         ctx.add("RW-2", "%s:post-gamma" % side, set(post_consts) <= {"INTUITIONISTIC", "HT", "CLASSIC"}, site, "portfolios applied after gamma: %s" % post_consts)
         # only simplification may precede gamma; only simplification and equivalence breaking may follow
-        pre_ok = all(set(cs) <= {"Apply::apply_fixpoint", "Apply::apply"} and c == ("self.simplify",) for c, cs, _ in before)
-        post_ok = all((set(cs) <= {"Apply::apply_fixpoint", "Apply::apply"} and c == ("self.simplify",)) or
+        pre_ok = all(cs and set(cs) <= {"Apply::apply_fixpoint", "Apply::apply"} and c == ("self.simplify",) for c, cs, _ in before)
+        post_ok = all((cs and set(cs) <= {"Apply::apply_fixpoint", "Apply::apply"} and c == ("self.simplify",)) or
                       (cs == ["ht::break_equivalences_theory"] and c == ("self.break_equivalences",)) for c, cs, _ in after)
         ctx.add("FLOW-PIPE", "%s:gated-steps" % side, pre_ok and post_ok, site,
                 "steps around gamma are flag-gated simplification / equivalence breaking only: before %s, after %s" % (before, after))
@@ -164,13 +182,35 @@ def rule_transition(ctx):
         for x in sym.subterms(preds):
             if isinstance(x, tuple) and x[:2] == ("call", "Program::predicates"):
                 sources.add(x[2][0])
-    ctx.add("TPL", "transition-predicates", sources == {("place", "self.left"), ("place", "self.right")}, ctx.site(ta),
-            "one transition axiom for every predicate of self.left and self.right: %s" % sorted(sources), construct=preds)
+    PL, PR = ("call", "Program::predicates", (("place", "self.left"),)), ("call", "Program::predicates", (("place", "self.right"),))
+    union = preds is not None and is_union(preds, {PL, PR})
+    ctx.add("TPL", "transition-predicates", sources == {("place", "self.left"), ("place", "self.right")} and union, ctx.site(ta),
+            "one transition axiom for every predicate of self.left or self.right (the union of both predicate sets): %s" % (sym.pretty(preds)[:300] if preds is not None else None), construct=preds)
     tf = fx.fn("sigma_0::Predicate::to_formula")
     v = ev.function(tf)
     ok = v[0] == "ctor" and "('place', 'self.symbol')" in repr(v) and "('place', 'self.arity')" in repr(v) and "'X{i}'" in repr(v) and "GeneralTerm::Variable" in repr(v)
     ctx.add("TPL", "to_formula", ok, ctx.site(tf), "Predicate::to_formula = symbol(X1..Xarity) with distinct general variables", construct=v)
     # here/there prefixes are part of C05 (FRESH-LIT ii)
+
+
+def is_union(t, leaves):
+    """t denotes the union of exactly the sets in `leaves`: extend / chain / union / insert-all combinations only"""
+    found = set()
+
+    def go(x):
+        if x in leaves:
+            found.add(x)
+            return True
+        if not isinstance(x, tuple) or not x:
+            return False
+        if x[0] in ("acc",):
+            return go(x[1])
+        if x[0] == "upd" and x[2] in ("extend", "append"):
+            return go(x[1]) and all(go(a) for a in x[3])
+        if x[0] == "call" and x[1] in ("Iterator::chain", "IndexSet::union", "IndexSet::into_iter", "IndexSet::iter", "Iterator::cloned", "Iterator::collect", "Clone::clone", "IntoIterator::into_iter"):
+            return all(go(a) for a in x[2])
+        return False
+    return go(t) and found == set(leaves)
 
 
 RULES = [rule_route, rule_pipe, rule_transition]
